@@ -5,6 +5,7 @@ import (
 	"encoding/json"
 	"fmt"
 	"sort"
+	"strings"
 
 	cedar "github.com/cedar-policy/cedar-go"
 	"github.com/cedar-policy/cedar-go/types"
@@ -140,6 +141,14 @@ func runSpellings(payload []*Sx) *Sx {
 	check("dt-explicit", extn("datetime", dt.String()), dt)
 	check("du-explicit", extn("duration", du.String()), du)
 	check("ent-explicit", `{"__entity":{"type":`+jsonOf(string(ent.Type))+`,"id":`+jsonOf(string(ent.ID))+`}}`, ent)
+	// the same spellings made long: JSON whitespace, leading zeros
+	pad := strings.Repeat(" ", 1500) + "\n\t"
+	check("ent-explicit-padded", `{`+pad+`"__entity"`+pad+`:{"type":`+jsonOf(string(ent.Type))+`,`+pad+`"id":`+jsonOf(string(ent.ID))+`}`+pad+`}`, ent)
+	check("dec-explicit-padded", `{"__extn":{"fn":"decimal",`+pad+`"arg":`+jsonOf(dec.String())+`}}`, dec)
+	if !strings.HasPrefix(dec.String(), "-") {
+		check("dec-explicit-zeros", extn("decimal", strings.Repeat("0", 1200)+dec.String()), dec)
+	}
+	check("du-explicit-padded", `{"__extn":`+pad+`{"fn":"duration","arg":`+jsonOf(du.String())+`}}`, du)
 	// 2. typed positions: explicit, {"fn","arg"} and bare string all equal
 	typed := func(name string, target interface{ UnmarshalJSON([]byte) error }, js string, equal func() bool) {
 		if err := target.UnmarshalJSON([]byte(js)); err != nil {
@@ -242,7 +251,9 @@ func runSpellings(payload []*Sx) *Sx {
 					`,"du":` + extn("duration", du.String()) + `,"e":{"__entity":` + otherImplicit + `},"sd":[` + sd + `],"r":{"x":` +
 					jsonOf(dec.String()) + `,"y":[` + sy + `]},"l":1,"s":"x"}`
 			}
-			doc := func(a string) string { return `[{"uid":{"type":"User","id":"u"},"parents":[],"attrs":` + a + `,"tags":{}}]` }
+			doc := func(a string) string {
+				return `[{"uid":{"type":"User","id":"u"},"parents":[],"attrs":` + a + `,"tags":{}}]`
+			}
 			var want types.EntityMap
 			if err := json.Unmarshal([]byte(doc(attrs(sdE, syE))), &want); err != nil {
 				problems = append(problems, "schema-mixed-reference:error")
